@@ -27,7 +27,9 @@ Readings adopted where the statement leaves room
   * "caller identity" = the identity as the sticky layer sees it: anonymous, or ((domain or ""), (principal or "")).
     Domains are NUL-free (a domain containing NUL collides with another (domain, principal) split both in the AAD and in
     _principal_key; R_C25 exhibits the collision; AuthContext does not forbid it, but domains are operator constants).
-  * "expired": a session is live while now <= expires_at (the code evicts when expires_at < now).
+  * "expired": a session is live while now <= expires_at (the code evicts when expires_at < now); expires_at = the clock at
+    open + the per-call ttl when one is given (0 and negative values included: such a session is expired at creation or at
+    the next instant), the server default only when the ttl is omitted (None).
   * "same worker": workers are told apart by (key, server_id); two workers sharing key AND server_id are one worker for
     this layer (deployment precondition), session ids are fresh within a worker (96 random bits).
   * "session_lost error": the Arrow error response with error_kind session_lost (HTTP 200 + X-VGI-RPC-Error, the
@@ -104,6 +106,14 @@ def translate(ctx: Any) -> bool:
     return bool(ctx.gen("G_StickyTok", lambda: t_c25_layout.generate(ctx.repo)))
 
 
+def _ms(t: Any) -> int:
+    """Seconds (multiples of 1/4 s, exact binary floats) -> integral milliseconds, the time unit of the model."""
+    v = t * 1000
+    if v != int(v):
+        raise RuntimeError(f"time {t!r} is not a whole number of milliseconds")
+    return int(v)
+
+
 def _norm_ident(i: Any) -> Any:
     if i is None:
         return None
@@ -154,10 +164,7 @@ class World:
     def snapshot(self, w: Any) -> tuple[tuple[bytes, int, bytes], ...]:
         out = []
         for sid, e in w.registry._entries.items():
-            exp = e.expires_at
-            if exp != int(exp):
-                raise RuntimeError("non-integral expiry: the logical clock must be integral")
-            out.append((bytes(sid), int(exp), e.principal_key.encode()))
+            out.append((bytes(sid), _ms(e.expires_at), e.principal_key.encode()))
         return tuple(out)
 
     def record_payload(self, raw: bytes, key: bytes, ident: Any) -> bytes:
@@ -180,7 +187,7 @@ class World:
         self.crafted.add(raw)
         return base64.urlsafe_b64encode(raw).rstrip(b"=").decode("ascii")
 
-    def set_now(self, now: int) -> None:
+    def set_now(self, now: Any) -> None:
         self.now = now
         self.clk.now = float(now)
 
@@ -207,16 +214,24 @@ class World:
         seen = S.SEEN_HEADER[-1] if S.SEEN_HEADER else None
         return r, err, list(S.LOG), seen, r.headers.get(SESSION_CLOSE_HEADER) == "true", r.headers.get(SESSION_HEADER)
 
-    def open(self, wname: str, ident: Any, ttl: int, sid: bytes) -> str | None:
+    def open(self, wname: str, ident: Any, ttl: Any, sid: bytes, via: str = "open_s") -> str | None:
+        """ttl: None (omitted), int or float seconds.  via open_s: float(int ttl); via open_x: the value as given."""
         w = self.workers[wname]
         before = self.snapshot(w)
         self.ntag += 1
         tag = f"s{self.ntag}"
         self.sec.script = [sid]
-        r, err, log, _seen, _closehdr, tok = self._post(w, "open_s", {"ttl": ttl, "tag": tag}, ident, None, accept=True)
+        if via == "open_s":
+            r, err, log, _seen, _closehdr, tok = self._post(w, "open_s", {"ttl": ttl, "tag": tag}, ident, None, accept=True)
+        else:
+            mode, val = (0, 0) if ttl is None else (1, _ms(ttl)) if isinstance(ttl, float) else (2, int(ttl))
+            r, err, log, _seen, _closehdr, tok = self._post(w, "open_x", {"mode": mode, "ttl_value": val, "tag": tag}, ident, None, accept=True)
         self.sec.script = []
         after = self.snapshot(w)
-        step = {"kind": "open", "worker": wname, "ident": ident, "now": self.now, "before": before, "after": after, "ttl": ttl, "sid": sid, "cls": "open"}
+        # the property's own reading of the lifetime: the per-call ttl whenever one is given, the default only for None
+        eff = w.default_ttl if ttl is None else ttl
+        self.ctx.tally("open_ttl", repr(ttl))
+        step = {"kind": "open", "worker": wname, "ident": ident, "now": self.now, "before": before, "after": after, "ttl": None if ttl is None else _ms(ttl), "sid": sid, "cls": "open"}
         if r.status_code != 200 or err is not None or not tok:
             step["obs"] = [3, 0, 0, 0]
             step["nonce"] = b""
@@ -224,8 +239,8 @@ class World:
             return None
         raw = base64.urlsafe_b64decode(tok + "=" * (-len(tok) % 4))
         payload = self.record_payload(raw, w.key, ident)
-        self.minted[raw] = {"worker": wname, "ident": _norm_ident(ident), "sid": sid, "exp": self.now + ttl, "tag": tag, "text": tok, "payload": payload, "raw_ident": ident}
-        self.ledger[(wname, sid)] = {"exp": self.now + ttl, "tag": tag, "ident": _norm_ident(ident)}
+        self.minted[raw] = {"worker": wname, "ident": _norm_ident(ident), "sid": sid, "exp": self.now + eff, "tag": tag, "text": tok, "payload": payload, "raw_ident": ident}
+        self.ledger[(wname, sid)] = {"exp": self.now + eff, "tag": tag, "ident": _norm_ident(ident)}
         step["obs"] = [3, 1, 0, 0] + [ord(c) for c in tok]
         step["nonce"] = raw[1:25]
         self.steps.append(step)
@@ -652,6 +667,47 @@ def run(ctx: Any) -> None:
     W.delete("lifecycle-reaped", "A", IDENTS[ALICE], t6)
     W.reap("D")
     W.present("lifecycle-reaped", "D", None, toks[("D", 0, 0)])
+    # per-call TTLs at open: omitted (server default 300 s), 0, 0.0, tiny positive, negative, as int and as float.
+    # One session per (ttl, presenting op): the first presentation after expiry evicts the entry.
+    T1 = T0 + 120
+    W.set_now(T1)
+    ttl_toks: dict[tuple[str, str], tuple[Any, str]] = {}
+    for ttl in (None, 0, 0.0, 0.5, 0.25, 1, -5, -0.25, -1.0):
+        for opn in ("post", "delete", "late"):
+            for wn2, ii2 in (("A", ALICE),) if opn != "post" else (("A", ALICE), ("D", 0)):
+                t = W.open(wn2, IDENTS[ii2], ttl, sid(), via="open_x")
+                if t is None:
+                    ctx.violation("open-session-failed", "open_session did not mint a token", {"worker": wn2, "ttl": repr(ttl)})
+                    continue
+                ttl_toks[(repr(ttl), opn + wn2)] = (ttl, t)
+    # at the instant of the open: ttl >= 0 is (still) live, negative is already expired
+    for (_r, opn), (ttl, t) in ttl_toks.items():
+        wn2, ii2 = opn[-1], (ALICE if opn[-1] == "A" else 0)
+        if opn.startswith("post"):
+            W.present("ttl-at-open", wn2, IDENTS[ii2], t, ttl=repr(ttl))
+            W.present("ttl-at-open", wn2, IDENTS[2], t, ttl=repr(ttl))
+        elif opn.startswith("delete"):
+            W.delete("ttl-at-open", wn2, IDENTS[2], t, ttl=repr(ttl))
+            if ttl is not None and ttl < 0:
+                W.delete("ttl-at-open", wn2, IDENTS[ii2], t, ttl=repr(ttl))
+    # a quarter of a second later, then at and after each positive TTL; the default-TTL sessions at and after 300 s
+    for d in (0.25, 0.5, 0.75, 1, 1.25, 300, 300.25):
+        W.set_now(T1 + d)
+        for (_r, opn), (ttl, t) in ttl_toks.items():
+            wn2, ii2 = opn[-1], (ALICE if opn[-1] == "A" else 0)
+            eff = 300 if ttl is None else ttl
+            if opn.startswith("late") and d < 300.25:
+                continue  # kept untouched until the very end: nothing has evicted these
+            if d not in (0.25, 300.25) and not (eff - 0.25 <= d <= eff + 0.25):
+                continue  # around the expiry instant of this session only
+            if opn.startswith("post") or opn.startswith("late"):
+                W.present("ttl-elapsed", wn2, IDENTS[ii2], t, ttl=repr(ttl), elapsed=d)
+            else:
+                if d <= eff:
+                    W.delete("ttl-elapsed", wn2, IDENTS[2], t, ttl=repr(ttl), elapsed=d)  # someone else: closes nothing
+                else:
+                    W.delete("ttl-elapsed", wn2, IDENTS[ii2], t, ttl=repr(ttl), elapsed=d)
+    W.reap("A")
     # shutdown on B while its sessions are still inside their TTL (clock back inside the TTL)
     W.set_now(T0 + 50)
     W.present("lifecycle-live", "B", None, toks[("B", 0, 0)])
@@ -678,6 +734,7 @@ def run(ctx: Any) -> None:
     ctx.sample({"class": "cross-worker", "minted_on": "A", "presented_on": "B (same key)", "expected": "session_lost"})
     ctx.sample({"class": "cross-identity", "minted_for": "('jwt','alice')", "presented_by": "('jwt','bob')", "expected": "session_lost"})
     ctx.sample({"class": "lifecycle-closed", "expected": "session_lost; DELETE 200 identical to every other 200"})
+    ctx.sample({"class": "ttl-elapsed", "open": "ctx.open_session(state, ttl=0) at T", "presented_at": "T + 0.25 s", "expected": "session_lost; DELETE 200"})
     ctx.sample({"class": "genuine", "worker": "U (server_id 'wörker')", "expected": "resumed", "codec_in_source": codec})
 
     _model_side(ctx, W, codec_term)
@@ -687,7 +744,7 @@ def run(ctx: Any) -> None:
         "the envelope version byte is not authenticated and stream-state cursor tokens use the same key and AAD: 'what opens was sealed as a session token' is part of the unforgeability premise (a relabelled cursor token is exercised: it is refused)",
         "session ids are fresh within a worker (secrets.token_bytes(12)); workers sharing a key have distinct server ids",
         "base64 (lenient urlsafe decoder) and str.strip are modelled after CPython 3.13 and validated by correspondence; bytes.decode('utf-8','replace') is a parameter (table of the runtime's answers)",
-        "time.time and secrets of vgi_rpc.http.server._sticky are replaced by a logical integral clock and a scripted id source; the reaper thread is not started (drain_expired is called directly)",
+        "time.time and secrets of vgi_rpc.http.server._sticky are replaced by a logical clock in multiples of 1/4 s (exact binary floats; the model counts milliseconds) and a scripted id source; the reaper thread is not started (drain_expired is called directly)",
         "token keys are 32 bytes (crypto.normalize_key is the identity on them)",
     ]
 
@@ -738,12 +795,12 @@ def _model_side(ctx: Any, W: World, codec_term: str) -> None:
         elif s["kind"] == "delete":
             st = f"SDelete {hdr(s['hdr'])}"
         elif s["kind"] == "open":
-            st = f"SOpen ({s['ttl']})%Z {lit(s['sid'])} {lit(s['nonce'])}"
+            st = f"SOpen {'None' if s['ttl'] is None else '(Some (' + str(s['ttl']) + ')%Z)'} {lit(s['sid'])} {lit(s['nonce'])}"
         elif s["kind"] == "reap":
             st = "SReap"
         else:
             st = "SShutdown"
-        inp = f"((({lit(key)}, {tlit(sid_str)}), {reg(s['before'])}), ({s['now']})%Z, {ident}, {st})"
+        inp = f"(((({lit(key)}, {tlit(sid_str)}), ({_ms(W.workers[s['worker']].default_ttl)})%Z), {reg(s['before'])}), ({_ms(s['now'])})%Z, {ident}, {st})"
         out = f"({lit(bytes(0)) if not s['obs'] else '[' + ';'.join(str(x) for x in s['obs']) + ']'}, {reg(s['after'])})"
         cases.append((inp, out))
 
